@@ -11,6 +11,7 @@ import (
 	"bytes"
 	"fmt"
 	"sort"
+	"strings"
 	"sync"
 	"time"
 
@@ -627,10 +628,20 @@ func (net *Net) SyncSuffix(from map[int]int64, more int64, maxIter int) (bool, i
 
 // ByzVote builds a signed vote of byzantine validator v.
 func (net *Net) ByzVote(v int, height int64, round int, typ types.SignedMsgType, bid types.BlockID) *consensus.VoteMessage {
+	return net.ByzVoteAt(v, height, round, typ, bid, false)
+}
+
+// ByzVoteAt is ByzVote with a choice of timestamp: current time (what an
+// honest-looking validator would send) or a time far in the past.
+func (net *Net) ByzVoteAt(v int, height int64, round int, typ types.SignedMsgType, bid types.BlockID, oldTime bool) *consensus.VoteMessage {
 	addr := net.Keys[v].PubKey().Address()
+	ts := time.Now().UTC()
+	if oldTime {
+		ts = time.Date(2026, 1, 1, 0, 0, int(height)*10+round, 0, time.UTC)
+	}
 	vote := &types.Vote{
 		ValidatorAddress: addr, ValidatorIndex: v, Height: height, Round: round,
-		Timestamp: time.Date(2026, 1, 1, 0, 0, int(height)*10+round, 0, time.UTC), Type: typ, BlockID: bid,
+		Timestamp: ts, Type: typ, BlockID: bid,
 	}
 	sig, _ := net.Keys[v].Sign(vote.SignBytes(ChainID))
 	vote.Signature = sig
@@ -690,6 +701,22 @@ func (net *Net) ByzRepropose(v int, ref int, round int, polRound int) (*consensu
 		pms = append(pms, &consensus.BlockPartMessage{Height: rs.Height, Round: round, Part: parts.GetPart(i)})
 	}
 	return &consensus.ProposalMessage{Proposal: prop}, pms, bid, nil
+}
+
+// StaleBlockTime reports whether honest node i, building the next block from
+// the commit it holds for the previous height, would produce a block that its
+// own validation rejects because the weighted-median block time is not after
+// the last block time.
+func (net *Net) StaleBlockTime(i int) bool {
+	nd := net.Nodes[i]
+	rs := nd.CS.GetRoundState()
+	st := nd.CS.GetState()
+	if rs.LastCommit == nil || !rs.LastCommit.HasTwoThirdsMajority() || rs.Height <= 1 {
+		return false
+	}
+	block, _ := st.MakeBlock(rs.Height, nil, rs.LastCommit.MakeCommit(), net.Keys[i].PubKey().Address())
+	err := st.ValidateBlock(block)
+	return err != nil && strings.Contains(err.Error(), "not greater than last block time")
 }
 
 // ProposerAt returns the validator index that proposes (height, round) from
